@@ -11,6 +11,9 @@ class SymNum:
     def __init__(self, term, iv: IV, conc=None):
         self.term = term
         self.iv = iv
+        if conc is None and iv.lo == iv.hi and not iv.lo_open and not iv.hi_open and iv.lo == iv.lo \
+                and iv.lo not in (float("inf"), float("-inf")):
+            conc = iv.lo        # the region collapsed to one point (e.g. 0 * h): the value is determined
         self.conc = conc
 
     @staticmethod
